@@ -59,6 +59,8 @@ def classes():
           LOG.append(('hang-not-abandoned', name))
         if FAULTS.get('td_slow'):
           time.sleep(0.15)         # a wind-down that takes longer than cancel_timeout_s
+        if FAULTS.get('td_slow_others') and FAULTS.get('td_hang') != name:
+          time.sleep(0.1)          # takes a while, but well within its own plug_teardown_timeout_s (0.25 s)
         if FAULTS.get('td_block') == name:
           # blocks where the asynchronous termination request cannot reach it (a C-level wait), until the framework
           # moves on to the next tearDown / the output callback -- or gives up waiting for that after 3 s
@@ -163,6 +165,8 @@ def run_case(case):
   kind, arg = case['fault']
   if kind in ('ctor', 'td_raise', 'td_hang', 'td_block'):
     FAULTS[kind] = arg
+  if kind == 'td_hang+slow':      # the tearDown of arg hangs; the tearDowns of the other plugs each take 0.1 s
+    FAULTS['td_hang'], FAULTS['td_slow_others'] = arg, True
   if kind == 'td_hang+ctor':      # two faults in one run: the tearDown of arg[0] hangs, the constructor of arg[1] fails
     FAULTS['td_hang'], FAULTS['ctor'] = arg[0], arg[1]
   RELEASE[0] = threading.Event()
@@ -204,6 +208,8 @@ def run_case(case):
   if kind == 'phase_sigint':
     FAULTS['td_slow'] = True
     conf.load(cancel_timeout_s=0.02)
+  if kind == 'td_hang+slow':
+    conf.load(plug_teardown_timeout_s=0.25)
   if kind in ('td_hang', 'td_block', 'td_hang+ctor'):
     conf.load(plug_teardown_timeout_s=0.03)
   try:
@@ -215,7 +221,7 @@ def run_case(case):
     RELEASE[0].set()
     if kind == 'td_block' and any(e[0] == 'teardown' and e[1] == arg for e in list(LOG)):
       DONE[0].wait(5.0)
-    if kind in ('td_hang', 'td_block', 'phase_sigint', 'td_hang+ctor'):
+    if kind in ('td_hang', 'td_block', 'phase_sigint', 'td_hang+ctor', 'td_hang+slow'):
       conf.reset()
   h.Test.HANDLED_SIGINT_ONCE = False
   return {'res': res, 'log': list(LOG)}
@@ -285,6 +291,12 @@ def check(case, out):
     ends = [i for i, e in enumerate(log) if e[0] == 'teardown-end']
     if idx['callback'] and max(idx['teardown'] + ends) > min(idx['callback']):
       bad.append(('teardown-after-callback', 'a plug tearDown ran (or was still running) after an output callback: %r' % (log,)))
+  if kind == 'td_hang+slow':
+    # the time limit is per plug: a tearDown that needs 0.1 s is never cut short because another plug used up its own limit
+    for e in log:
+      if e[0] == 'teardown' and e[1] != arg and not any(x[0] == 'teardown-end' and x[1] == e[1] and x[2] == e[2] for x in log):
+        bad.append(('teardown-cut-short', 'tearDown of %s (0.1 s of work, limit 0.25 s per plug) did not finish: it was abandoned '
+                    'together with the hanging tearDown of %s' % (e[1], arg)))
   for e in log:
     if e[0] == 'hang-not-abandoned':
       bad.append(('teardown-hang-not-abandoned', 'the hanging tearDown of %s ran for 4 s without being abandoned' % e[1]))
@@ -322,6 +334,7 @@ def cases(tier):
   faults += [('ctor', l) for l in 'ABC'] + [('td_raise', l) for l in 'ABC'] + [('td_hang', l) for l in 'AB'] + [('td_block', 'A')]
   faults += [('td_hang+ctor', 'AB'), ('td_hang+ctor', 'AC'), ('td_hang+ctor', 'BA'), ('td_hang+ctor', 'CA')]
   faults += [('ts_raise', None), ('ts_stop', None), ('ts_abort', None)]
+  slow = [('td_hang+slow', 'A'), ('td_hang+slow', 'B')]
   for j in range(nph):
     faults += [('phase_raise', j), ('phase_stop', j), ('phase_hang', j), ('phase_abort', j)]
   faults += [('phase_sigint', 0)]
@@ -332,6 +345,9 @@ def cases(tier):
     for tsi in range(len(TEST_STARTS)):
       for f in faults:
         yield {'phases': list(ph), 'test_start': tsi, 'fault': list(f)}
+      if tsi in (0, 3) and len({it[1] for r in ph for it in REQUESTS[r]} | ({'A'} if tsi == 3 else set())) >= 2:
+        for f in slow:       # (costs real time: only where at least two plug classes exist)
+          yield {'phases': list(ph), 'test_start': tsi, 'fault': list(f)}
 
 
 def _work(item):
